@@ -124,8 +124,15 @@ struct G
             E a = int_expr(sc, depth - 1, want_tag && left);
             E b = int_expr(sc, depth - 1, want_tag && !left);
             std::string op = rng.pick(ops);
-            if (op == "%" || op == "/")
-                b.s = "(1 + (" + b.s + " & 7))";
+            if (op == "%" || op == "/") {
+                // mostly a divisor that cannot be zero; now and then a bare identifier ("x % gi0": whether it is zero is
+                // a run-time matter, and printed back it is "% g...", "% d...")
+                std::vector<std::string> pool = sc.ints;
+                if (!want_tag && !pool.empty() && rng.chance(0.3))
+                    b = E{rng.pick(pool), {}};
+                else
+                    b.s = "(1 + (" + b.s + " & 7))";
+            }
             E r{"(" + a.s + " " + op + " " + b.s + ")", a.tags};
             join(r, b);
             return r;
@@ -558,6 +565,32 @@ struct G
                 break;
             }
             case 12:
+                if (rng.chance(0.3)) {
+                    std::string n = "s" + std::to_string(100 + uniq++);
+                    MDecl d;
+                    d.kind = MDecl::TYPEDEF;
+                    d.text = layout("typedef struct { int a; struct { int b; bool c; } in; int d[2]; } " + n + ";");
+                    d.name = n;
+                    add(d);
+                    std::string v = "gn" + std::to_string(uniq++);
+                    add(var(n + " " + v + ";", v));
+                    break;
+                }
+                if (!lvl_used && rng.chance(0.3)) {
+                    // "lvl" is a type in some documents (or templates) and a variable in others
+                    lvl_used = true;
+                    if (rng.chance(0.5)) {
+                        MDecl d;
+                        d.kind = MDecl::TYPEDEF;
+                        d.text = "typedef int[0,3] lvl;";
+                        d.name = "lvl";
+                        add(d);
+                    } else {
+                        add(var("int lvl;", "lvl"));
+                        sc.ints.push_back("lvl");
+                    }
+                    break;
+                }
                 if (cfg.shadowing && std::find(sc.ints.begin(), sc.ints.end(), "q") == sc.ints.end()) {
                     add(var("int q;", "q"));
                     sc.ints.push_back("q");
@@ -762,12 +795,19 @@ struct G
             }
         }
         // locations
+        const int name_style = rng.chance(0.5) ? 0 : (int)rng.below(8);
         int nlocs = rng.range(1, std::max(1, cfg.max_locs));
         for (int i = 0; i < nlocs; ++i) {
             MLoc l;
             l.id = "id" + std::to_string(ti * 100 + i);
-            if (!(cfg.anonymous_locs && rng.chance(0.3)))
-                l.name = "L" + std::to_string(i);
+            if (!(cfg.anonymous_locs && rng.chance(0.3))) {
+                // the same XML id stands for different names in different documents (and templates); rarely a name
+                // at the scanner's identifier limit (4000 characters are legal, 4001 are not)
+                static const char* pool[] = {"L", "Idle", "Busy", "Start", "Wait", "Crit", "Try", "Done"};
+                l.name = std::string{pool[name_style]} + std::to_string(i);
+                if (i == 0 && rng.chance(0.004))
+                    l.name = std::string(rng.chance(0.5) ? 4000 : 3999, 'N');
+            }
             if (rng.chance(cfg.p_label * 0.7))
                 l.inv = label(invariant(sc));
             if (rng.chance(cfg.p_label * 0.4)) {
@@ -816,6 +856,10 @@ struct G
                             size_t which = rng.below((uint32_t)sc.int_typedefs.size());
                             ty = sc.int_typedefs[which];
                             sel.tags.push_back(sc.int_typedef_tags[which]);
+                        } else if (rng.chance(0.08)) {
+                            // ranges that touch the limits of the default int range
+                            static const char* lim[] = {"int[1,32767]", "int[-32768,5]", "int[0,32766]", "int[-32767,32767]"};
+                            ty = lim[rng.below(4)];
                         } else {
                             int tg = tag();
                             ty = "int[0," + std::to_string(tg) + "]";
@@ -870,6 +914,7 @@ struct G
         return t;
     }
 
+    bool lvl_used{false};
     int chains_made{0};
     void gen_system(Model& m, const Scope& gsc)
     {
@@ -1028,6 +1073,8 @@ Model gen_model(Rng& rng, const GenCfg& cfg)
         Scope tsc;
         m.templs.push_back(g.gen_template(i, gsc, tsc));
     }
+    if (!cfg.dynamic_templates && rng.chance(0.06) && !m.templs.empty())
+        m.templs.back().name = "D0";  // an ordinary template under the name the dynamic template has in other documents
     if (cfg.dynamic_templates) {
         // a dynamic template with parameters, defined somewhere before the last ordinary template
         MTempl d;
